@@ -515,6 +515,23 @@ func (x *ttlCtx) checkCoupled(t *Trace, name, method string) {
 								deleted = true
 							}
 						}
+						// or the very key the element was just found under (the insert rule indexes every
+						// element under its node's own key, so that is the same key)
+						for _, z := range t.Events {
+							if z.Kind != EvMapLookup || z.Args[0].Key() != k.Key() {
+								continue
+							}
+							if _, isIdx := symFieldBase(z.Addr, x.eleHash); !isIdx {
+								continue
+							}
+							r := z.Res
+							if r.Kind == KTuple {
+								r = r.Args[0]
+							}
+							if r.Key() == ele.Key() {
+								deleted = true
+							}
+						}
 					}
 				}
 			}
@@ -553,13 +570,16 @@ func (x *ttlCtx) checkBound(t *Trace, name string, i int) {
 		y := t.Events[j]
 		if x.listCall(y, "Len") {
 			r := y.Res
-			for _, f := range facts {
-				if f.X.Key() == r.Key() && loadedFrom(t, f.Y, x.size, 0, len(t.Events)) {
-					switch f.Op {
-					case token.GTR:
-						tested, over = true, true
-					case token.LEQ:
-						tested, over = true, false
+			for _, f0 := range facts {
+				// either way round: Len() > size, size < Len()
+				for _, f := range []Fact{f0, {Op: swapOp(f0.Op), X: f0.Y, Y: f0.X}} {
+					if f.X.Key() == r.Key() && loadedFrom(t, f.Y, x.size, 0, len(t.Events)) {
+						switch f.Op {
+						case token.GTR:
+							tested, over = true, true
+						case token.LEQ:
+							tested, over = true, false
+						}
 					}
 				}
 			}
@@ -572,6 +592,49 @@ func (x *ttlCtx) checkBound(t *Trace, name string, i int) {
 	if over {
 		// the victim is Back()
 		okv := false
+		// the element found in the index under the key of Back()'s node is Back() itself (every element is indexed
+		// under its node's own key, and that lookup cannot miss: index-list-coupled)
+		viaIndex := func(upto int, elem *Sym) (isBack, missed bool) {
+			for k := i + 1; k < upto; k++ {
+				z := t.Events[k]
+				if z.Kind != EvMapLookup {
+					continue
+				}
+				if _, isIdx := symFieldBase(z.Addr, x.eleHash); !isIdx {
+					continue
+				}
+				kk := z.Args[0]
+				if !(kk.Kind == KInit && kk.Args[0].isFieldAddrOf(x.nKey)) {
+					continue
+				}
+				b, isNode := nodeOfElem(kk.Args[0].Args[0])
+				if !isNode {
+					continue
+				}
+				fromBack := false
+				for m := i + 1; m < k; m++ {
+					if x.listCall(t.Events[m], "Back") && t.Events[m].Res.Key() == b.Key() {
+						fromBack = true
+					}
+				}
+				if !fromBack {
+					continue
+				}
+				r, okFlag := z.Res, (*Sym)(nil)
+				if r.Kind == KTuple {
+					r, okFlag = z.Res.Args[0], z.Res.Args[1]
+				}
+				if elem != nil && r.Key() == elem.Key() {
+					isBack = true
+				}
+				if okFlag != nil {
+					if v, known := boolFact(facts, okFlag); known && !v {
+						missed = true
+					}
+				}
+			}
+			return
+		}
 		for j := i + 1; j < len(t.Events); j++ {
 			y := t.Events[j]
 			if x.listCall(y, "Remove") {
@@ -580,7 +643,14 @@ func (x *ttlCtx) checkBound(t *Trace, name string, i int) {
 						okv = true
 					}
 				}
+				if isBack, _ := viaIndex(j, y.Args[1]); isBack {
+					okv = true
+				}
 			}
+		}
+		if _, missed := viaIndex(len(t.Events), nil); missed && !okv {
+			c.holds("C05.bound", name, t.Events[i].Pos, "path on which the index lookup of the tail's own key misses: excluded by index-list-coupled")
+			return
 		}
 		if !okv {
 			c.violated("C05.bound", name, t.Events[i].Pos, "the cache is over its size but the element evicted is not list.Back() (the least recently touched key) or nothing is evicted", c.witness(t, len(t.Events)-1)...)
